@@ -111,6 +111,23 @@ func (e envelope) conforms(body string) string {
 	return ""
 }
 
+// reducedEscape is the protocol's encoding of a string key inside headers and bodies: the ROR2 delimiters and the percent
+// sign are percent-encoded, the empty string is two apostrophes, everything else is literal
+func reducedEscape(s string) string {
+	if s == "" {
+		return "''"
+	}
+	var sb strings.Builder
+	for i := 0; i < len(s); i++ {
+		if strings.IndexByte("%,()':", s[i]) >= 0 {
+			fmt.Fprintf(&sb, "%%%02X", s[i])
+		} else {
+			sb.WriteByte(s[i])
+		}
+	}
+	return sb.String()
+}
+
 var texts = []string{"plain", "a/b?c#d&e=f;g", "(a:b,c)'List(x)", "100%25% +", "", "é日🕴"}
 
 var out *bufio.Writer
@@ -224,7 +241,7 @@ func (g *gen) fill(v reflect.Value, path string) {
 			if !f.IsExported() {
 				continue
 			}
-			if g.sparse && strings.HasSuffix(name, "Params") && (f.Type.Kind() == reflect.Ptr || f.Type.Kind() == reflect.Slice || f.Type.Kind() == reflect.Map) {
+			if g.sparse && (strings.HasSuffix(name, "Params") || name == "PagingContext") && (f.Type.Kind() == reflect.Ptr || f.Type.Kind() == reflect.Slice || f.Type.Kind() == reflect.Map) {
 				continue
 			}
 			sub := base + "." + f.Name
@@ -551,6 +568,41 @@ func main() {
 			if why := row.Resp.conforms(rec.respBody); why != "" {
 				violation("C03/envelope/response/"+row.Method, "response body: "+why, cs)
 			}
+			// batch envelopes: the member names of results / errors are the callers' keys in the REDUCED (header / body) encoding:
+			// only the ROR2 delimiters and the percent sign are escaped there, nothing URL-specific
+			if strings.HasPrefix(row.Method, "batch_") && row.Method != "batch_create" {
+				var sent []string
+				for _, a := range args {
+					switch {
+					case a.Kind() == reflect.Slice && a.Type().Elem().Kind() == reflect.String:
+						for i := 0; i < a.Len(); i++ {
+							sent = append(sent, a.Index(i).String())
+						}
+					case a.Kind() == reflect.Map && a.Type().Key().Kind() == reflect.String:
+						for _, k := range a.MapKeys() {
+							sent = append(sent, k.String())
+						}
+					}
+				}
+				if len(sent) > 0 {
+					want := map[string]bool{}
+					for _, k := range sent {
+						want[reducedEscape(k)] = true
+					}
+					var doc map[string]map[string]any
+					if json.Unmarshal([]byte(rec.respBody), &doc) == nil {
+						got := map[string]bool{}
+						for _, f := range []string{"results", "errors"} {
+							for k := range doc[f] {
+								got[k] = true
+							}
+						}
+						if fmt.Sprint(got) != fmt.Sprint(want) {
+							violation("C03/envelope/batch-keys/"+row.Method, fmt.Sprintf("the response is keyed by %v, the keys in the protocol's reduced encoding are %v", got, want), cs)
+						}
+					}
+				}
+			}
 			if row.Method == "create" && rec.idHdr == "" {
 				violation("C03/envelope/response/create-id-header", "a create was answered without X-RestLi-Id", cs)
 			}
@@ -613,6 +665,8 @@ func main() {
 		if strings.HasPrefix(gm, "Batch") && len(rets) == 2 && rets[0].Kind() == reflect.Ptr && !rets[0].IsNil() {
 			if d := originalKeys(args, rets[0]); d != "" {
 				violation("C16/not-original-key/"+feat, d, cs)
+				// ... which also means that the caller cannot find what the implementation returned for ITS keys
+				violation("C02/batch-results-not-under-callers-keys/"+feat, d, cs)
 			}
 		}
 		// wire against the specification's row
